@@ -363,13 +363,14 @@ def m_rename_other_var(T, r):
     for i, x in enumerate(T.t):
         offs[i] = k
         k += len(x)
-    top = re.findall(r"^let (\w+) =", src, re.M)
     in_fun = [i for i in u if _in_function(src, offs[i])]
-    if top and in_fun and r.random() < 0.5:
-        # a use inside a function body renamed to a variable bound by a top-level `let`
+    other = []
+    if in_fun and r.random() < 0.7:
+        # a use inside a function body renamed to a variable bound by a top-level `let` that precedes the function
         i = in_fun[r.randrange(len(in_fun))]
-        other = [n for n in top if n != T.t[i]]
-    else:
+        fstart = max(src.rfind("\nfun ", 0, offs[i]), 0)
+        other = [m.group(1) for m in re.finditer(r"^let (\w+) =", src, re.M) if m.start() < fstart and m.group(1) != T.t[i]]
+    if not other:
         i = u[r.randrange(len(u))]
         other = [n for n in names if n != T.t[i]]
     if not other:
@@ -620,7 +621,7 @@ def _expr_candidates(src):
                 # f(args) -> the argument itself when there is exactly one (e.g. string_repr(x) -> x), or a literal
                 name = T.nb(i, -1)
                 inner = "".join(T.t[i + 1:j]).strip()
-                if inner and T.tok(name, -1) != "fun":
+                if inner and T.tok(name, -1) != "fun" and p != "Some":
                     out.append(T.splice(name, j, inner))
             else:
                 for lit in ("1", '"s"', "True"):
@@ -710,10 +711,7 @@ def _expr_candidates(src):
                         if depth == 0:
                             e = q
                             break
-                if e is not None and '"' not in l[c.start():e].replace('\\"', ""):
-                    ind = l[:len(l) - len(l.lstrip())]
-                    out.append("\n".join(lines[:n] + [ind + l[c.start():e + 1]] + lines[n + 1:]) + "\n")
-                elif e is not None:
+                if e is not None:
                     ind = l[:len(l) - len(l.lstrip())]
                     out.append("\n".join(lines[:n] + [ind + l[c.start():e + 1]] + lines[n + 1:]) + "\n")
     return [c for c in out if c != src]
@@ -946,8 +944,8 @@ def search(ctx, n_programs):
     for k, size in enumerate((8, 9, 10)):
         n = n_programs // 3 + (1 if k < n_programs % 3 else 0)
         base += genprog.programs(rng, n, size=size, annotate=True, features=set(FEATURES))
-    # half of the programs: function definitions scattered among the statements instead of all first
-    base = [relocate_funs(rng, b) if rng.random() < 0.5 else b for b in base]
+    # 60% of the programs: function definitions scattered among the statements instead of all first
+    base = [relocate_funs(rng, b) if rng.random() < 0.6 else b for b in base]
     progs = []          # (src, mutation kind or None, base index)
     seen = set()
     for bi, src in enumerate(base):
